@@ -615,3 +615,8 @@ def replay_args(v):
     if v["key"] in ("c09.split.halves_do_not_share_one_request_end", "c09.request_end.accepted_request_holds_wrong_number_of_ends"):
         return ("c09_split_halves", [])
     return None
+
+
+# native scenarios that exercise, against the real build, the behaviours this spec decides: on a tree where the spec finds no
+# violation every one of them must NOT reproduce (a scenario that reproduces there means the spec misses something)
+SCENARIOS = [('c09_refused_request_blocks_shutdown', []), ('c09_split_halves', []), ('c09_end_order', ['0,8,4']), ('c09_end_order', ['8,0,4']), ('c09_end_order', ['4,8,0'])]
